@@ -482,7 +482,7 @@ def fsp_jobs(Job, cfg=CFG_NDEBUG, tier="quick"):
 
 
 def c15_extra(Job, tier):
-    return fsp_jobs(Job)
+    return fsp_jobs(Job) + names_jobs(Job)
 
 
 def catsort_jobs(Job, cfg=CFG_NDEBUG, tier="quick"):
@@ -541,3 +541,16 @@ def copyhfe_jobs(Job, cfg=CFG_NDEBUG, tier="quick"):
     return [Job("D_is_hfe3_opcode_%s" % cfg[0], "harness/dfs_copyhfe.c", "h_is_opcode", enforce=["is_hfe3_opcode"], defines=list(cfg[1]), extract=ext(g), tier=tier),
             Job("D_copy_hfe_v1_%s" % cfg[0], "harness/dfs_copyhfe.c", "h_copy_hfe", enforce=["copy_hfe"], replace=["is_hfe3_opcode"], loops=True,
                 defines=list(cfg[1]), extract=ext(g), tier=tier, cover=True, solver="portfolio")]
+
+
+NAMES_GROUP = ["byte_to_ascii7", "CatalogEntry_directory", "CatalogEntry_name", "ci_comp", "case_insensitive_less", "case_insensitive_equal", "CatalogEntry_has_name"]
+
+
+def names_jobs(Job, cfg=CFG_NDEBUG, tier="quick"):
+    uw = ["--unwindset", "mismatch_model.0:17,spec_ci_less.0:16,spec_ci_equal.0:16,CatalogEntry_name.0:8,cstr_rtrim.0:17", "--unwinding-assertions"]
+    def J(name, entry, enforce, **kw):
+        return Job("D_%s_%s" % (name, cfg[0]), "harness/dfs_names.c", entry, enforce=enforce, defines=list(cfg[1]), extract=ext(NAMES_GROUP), tier=tier, cbmc=uw, solver="portfolio", **kw)
+    return [J("ci_comp", "h_ci_comp", ["ci_comp"]),
+            J("case_insensitive_less", "h_ci_less", ["case_insensitive_less"], replace=["ci_comp"]),
+            J("case_insensitive_equal", "h_ci_equal", ["case_insensitive_equal"], replace=["case_insensitive_less"]),
+            J("has_name", "h_has_name", ["CatalogEntry_has_name"], replace=["case_insensitive_equal", "CatalogEntry_directory"])]    # CatalogEntry::name inlined (its contract speaks about one ghost position only)
